@@ -428,8 +428,14 @@ func (it *interp) execInstr(s *state, f frameID, fn *ssa.Function, in ssa.Instru
 					return it.freshRep(d, f, x, x.Type())
 				}
 				r := it.load(d, f, a, x.Type(), x)
-				if g, isG := x.X.(*ssa.Global); isG && IsErrorType(x.Type()) && it.sentinel(g) {
-					r.isnil = lin.Const(0) // error sentinel initialised once with errors.New and never reassigned
+				if g, isG := x.X.(*ssa.Global); isG && it.sentinel(g) {
+					if IsErrorType(x.Type()) {
+						r.isnil = lin.Const(0) // error sentinel initialised once with errors.New and never reassigned
+					}
+					if n, ok := it.globalSliceLen(g); ok && r.kind == kSlice {
+						// package-level slice initialised with a literal and never reassigned
+						r = rep{kind: kSlice, len: lin.Const(n), cap: lin.Const(n), isnil: lin.Const(0)}
+					}
 				}
 				return r
 			})
@@ -622,4 +628,27 @@ func (it *interp) sentinel(g *ssa.Global) bool {
 	}
 	it.sentinels[g] = ok && stored
 	return ok && stored
+}
+
+// globalSliceLen returns the length of the composite literal stored to g in the package
+// initialiser.
+func (it *interp) globalSliceLen(g *ssa.Global) (int64, bool) {
+	init := g.Pkg.Func("init")
+	if init == nil {
+		return 0, false
+	}
+	for _, b := range init.Blocks {
+		for _, in := range b.Instrs {
+			st, ok := in.(*ssa.Store)
+			if !ok || st.Addr != g {
+				continue
+			}
+			sl, ok := st.Val.(*ssa.Slice)
+			if !ok || sl.Low != nil || sl.High != nil || sl.Max != nil {
+				return 0, false
+			}
+			return arrayLen(sl.X.Type())
+		}
+	}
+	return 0, false
 }
